@@ -497,6 +497,10 @@ fn main() {
                 vh::c02i::check_single(ctx, sg["template"].as_str().unwrap(), sg["pi"].as_u64().unwrap() as usize, sg["qi"].as_u64().unwrap() as usize, &t, &e, &Samples::new(0));
                 return;
             }
+            if case["kind"] == json!("build_metadata_pair") {
+                vh::e1::build_metadata_consistency(ctx, &e);
+                return;
+            }
             if let Some(sg) = case.get("single_after") {
                 let pre: Vec<String> = sg["preamble_put"].as_array().unwrap().iter().map(|x| x.as_str().unwrap().to_string()).collect();
                 vh::c02i::check_single_after(ctx, &pre, sg["template"].as_str().unwrap(), sg["pi"].as_u64().unwrap() as usize, sg["qi"].as_u64().unwrap() as usize, &e);
@@ -577,6 +581,8 @@ fn main() {
 
     // ---- C02 part (i): the single-endpoint rules
     let singles = if ctx.prop == "C02" { vh::c02i::run(&ctx, &samples) } else { json!(null) };
+    // ---- C02: bounds that differ only in build metadata - registration and dispatch must agree
+    let build_meta = if ctx.prop == "C02" { json!(vh::e1::build_metadata_consistency(&ctx, &cn.evals)) } else { json!(null) };
 
     // ---- live slice: the same tables behind a real server, requests over TCP
     let live = if ctx.prop == "C01" || ctx.prop == "C04" {
@@ -606,6 +612,7 @@ fn main() {
     let cov = json!({
         "live_slice": live,
         "single_endpoint_rules": singles,
+        "build_metadata_pairs_checked_for_consistency": build_meta,
         "states": states,
         "transitions": cn.registers.load(Ordering::Relaxed),
         "traces_validated_against_impl": cn.histories.load(Ordering::Relaxed),
